@@ -383,8 +383,8 @@ func (g *gen) writeStatementIOManip(b *buffer, n *a.IOManip, depth uint32) error
 				oPrefix, ioBindNum, prefix, name,
 				prefix, name,
 				prefix, name)
-			b.printf("size_t wi%d = %s%s->meta.wi;\n",
-				ioBindNum, prefix, name)
+			b.printf("size_t wi%d = ((size_t)(%s%s%s - %s%s->data.ptr));\n",
+				ioBindNum, iopPrefix, prefix, name, prefix, name)
 			b.printf("%s%s->data.ptr += wi%d;\n",
 				prefix, name, ioBindNum)
 			b.printf("%s%s->data.len -= wi%d;\n",
